@@ -7,6 +7,10 @@ HERE = os.path.dirname(os.path.abspath(__file__))
 
 # property -> (level category, engine/world, technique, level text, level note)
 CHECKS = {
+ "C20": ("exploration", "POOL",
+   "seeded simulation of the real core.TxPool in a synctest bubble with a schedule gate (hook H4) on its background reorg worker, so that every foreground/background interleaving is a seeded choice; invariant oracles over the exported views at every quiescent point",
+   "Seeded search over operation sequences (local/remote adds of valid/underpriced/replacing/gapped/unaffordable/duplicate transactions, head changes incl. reorg-shaped resets that re-inject dropped transactions, clock jumps, SetGasPrice) and runReorg/foreground interleavings. Views must agree with each other, pending must be gap-free/affordable from the head state's nonce, queued above, limits as documented in the TxPoolConfig comments (locals exempt). Sampling, not proof.",
+   "Not decided: the data-race clause (no -race part was built), the journal (needs the file system; disabled), sequences continuing after a global-queue truncation (its outcome depends on Go map order; runs end there). Three low-severity limit findings are recorded as known."),
  "C05": ("exploration", "NET+CHAIN",
    "deterministic simulation: (1) history oracle — every signature honest engines emit in the NET simulation (seeded schedules, message faults, crash/restart) is recorded, every evidence assemblable from one validator's own signatures is replayed into the real slashing code (builder and validator path) on scratch head states; (2) Byzantine fault — a validator really equivocates on a chain grown by the real block-building path, with evidence duplication/replay/late/forged variants",
    "Part 1 decides 'an honest validator is never slashable' over recorded histories of real engines; part 2 decides acceptance by builder and validator alike, exactly-once and the bounded penalty for real equivocation. Sampling, not proof. One genuine, unrepairable-without-protocol-change defect is recorded as known findings (classes honest-validator-slashable:different-hashes:<kinds>): the signed vote payload carries no vote kind.",
